@@ -626,3 +626,22 @@ def taint_from(fn, seeds, through_calls=True, stop_calls=None):
                                 tainted.add(r)
                                 changed = True
     return tainted
+
+
+def innermost_loop(fn, bb):
+    """(header, body) of the innermost natural loop containing bb, or (None, set())"""
+    dom = fn.dominators()
+    hs = {h for h in loop_headers(fn, bb) if any(h in dom.get(p, ()) for p in fn.pred(h))}
+    if not hs:
+        return None, set()
+    h = max(hs, key=lambda x: len(dom.get(x, ())))
+    # natural loop: blocks that reach a back-edge source without passing through the header
+    body = {h}
+    stack = [p for p in fn.pred(h) if h in dom.get(p, ())]
+    while stack:
+        b = stack.pop()
+        if b in body:
+            continue
+        body.add(b)
+        stack.extend(fn.pred(b))
+    return h, body
